@@ -397,7 +397,7 @@ func (r *crun) accept() bool {
 		accepted.Store(true)
 		r.sim.Poke()
 	}()
-	settle := []int{2, 10, 50, 250, 1000, 3000}
+	settle := []int{5, 50, 250, 1000, 3000}
 	for attempt := 0; ; attempt++ {
 		r.setStage(fmt.Sprintf("accept-attempt%d", attempt))
 		r.attempts = attempt + 1
@@ -543,7 +543,22 @@ func (r *crun) inRound(rd Round) {
 	cs.mu.Unlock()
 	doneCh := make(chan struct{})
 	var wg sync.WaitGroup
-	wg.Add(1)
+	wg.Add(2)
+	go func() { // wakes the sender regularly so that it can notice a reader that makes no progress
+		defer wg.Done()
+		tk := time.NewTicker(200 * time.Millisecond)
+		defer tk.Stop()
+		for {
+			select {
+			case <-doneCh:
+				return
+			case <-tk.C:
+				cs.mu.Lock()
+				cs.cond.Broadcast()
+				cs.mu.Unlock()
+			}
+		}
+	}()
 	go func() {
 		defer wg.Done()
 		fail := func() {
@@ -552,21 +567,59 @@ func (r *crun) inRound(rd Round) {
 			cs.cond.Broadcast()
 			cs.mu.Unlock()
 		}
-		for _, f := range rd.In {
+		// waitFor blocks until pred holds (true) or the round is aborted (false). If the reader makes no
+		// progress for 1.5 s meanwhile, a probe frame is sent: frames are delivered in order, so a probe
+		// that arrives proves that what is missing before it will never come. When probes are sent
+		// depends on time, what they prove does not.
+		nprobes := 0
+		waitFor := func(pred func() bool) bool {
 			cs.mu.Lock()
-			if f.Own {
-				for !cs.abort && cs.unconsumed() >= window {
-					cs.cond.Wait()
+			defer cs.mu.Unlock()
+			lastGot, since := cs.got, time.Now()
+			for {
+				if cs.abort || cs.linkLost {
+					return false
 				}
-				if u := cs.unconsumed() + 1; u > r.maxUnread {
-					r.maxUnread = u
+				if pred() {
+					return true
 				}
+				if cs.got != lastGot {
+					lastGot, since = cs.got, time.Now()
+				}
+				if time.Since(since) > 1500*time.Millisecond && nprobes < 8 {
+					nprobes++
+					p := probePayload(len(cs.probes))
+					cs.probes = append(cs.probes, probe{len(cs.expected), p})
+					cs.announce(p)
+					cs.allD = append(cs.allD, dframe{true, "probe", p})
+					cs.cond.Broadcast()
+					cs.mu.Unlock()
+					err := r.sim.Send(agwsim.Frame{Port: uint8(c.Port), Kind: 'D', PID: 0xf0, From: c.Remote, To: c.MyCall, Data: p}, agwsim.Seg{})
+					cs.mu.Lock()
+					if err != nil {
+						cs.linkLost, cs.sendDone = true, true
+						cs.cond.Broadcast()
+						return false
+					}
+					since = time.Now()
+					continue
+				}
+				cs.cond.Wait()
 			}
+		}
+		for _, f := range rd.In {
+			if f.Own && !waitFor(func() bool { return cs.unconsumed() < window }) {
+				return
+			}
+			cs.mu.Lock()
 			if cs.abort {
 				cs.mu.Unlock()
 				return
 			}
 			if f.Own {
+				if u := cs.unconsumed() + 1; u > r.maxUnread {
+					r.maxUnread = u
+				}
 				cs.announce(f.Data)
 			}
 			if f.Kind == "D" {
@@ -583,33 +636,7 @@ func (r *crun) inRound(rd Round) {
 		cs.sendDone = true
 		cs.cond.Broadcast()
 		cs.mu.Unlock()
-		// If the reader does not reach the end of the round, a probe frame is sent: frames are
-		// delivered in order, so a probe that arrives proves that what is missing before it will never
-		// come. When probes are sent depends on time, what they prove does not.
-		wait := 1500 * time.Millisecond
-		for k := 0; k < 8; k++ {
-			select {
-			case <-doneCh:
-				return
-			case <-time.After(wait):
-			}
-			wait = time.Second
-			cs.mu.Lock()
-			if cs.readerDone || cs.abort {
-				cs.mu.Unlock()
-				return
-			}
-			p := probePayload(len(cs.probes))
-			cs.probes = append(cs.probes, probe{len(cs.expected), p})
-			cs.announce(p)
-			cs.allD = append(cs.allD, dframe{true, "probe", p})
-			cs.cond.Broadcast()
-			cs.mu.Unlock()
-			if err := r.sim.Send(agwsim.Frame{Port: uint8(c.Port), Kind: 'D', PID: 0xf0, From: c.Remote, To: c.MyCall, Data: p}, agwsim.Seg{}); err != nil {
-				fail()
-				return
-			}
-		}
+		waitFor(func() bool { return cs.readerDone })
 	}()
 	r.reader(rd, doneCh)
 	wg.Wait()
@@ -636,6 +663,7 @@ func (r *crun) reader(rd Round, doneCh chan struct{}) {
 		for {
 			if cs.sendDone && len(r.got) >= len(cs.expected) {
 				cs.readerDone = true
+				cs.cond.Broadcast()
 				break
 			}
 			if len(cs.expected) > len(r.got) {
